@@ -1,7 +1,11 @@
 pub mod c01;
 pub mod c02;
 pub mod c03;
+pub mod c04;
 pub mod c05;
+pub mod c06;
+pub mod c07;
+pub mod c08;
 pub mod c10;
 pub mod c13;
 pub mod common;
@@ -13,7 +17,11 @@ pub fn all() -> Vec<Box<dyn Erased>> {
         Box::new(Wrap(c01::C01)),
         Box::new(Wrap(c02::C02)),
         Box::new(Wrap(c03::C03)),
+        Box::new(Wrap(c04::C04)),
         Box::new(Wrap(c05::C05)),
+        Box::new(Wrap(c06::C06)),
+        Box::new(Wrap(c07::C07)),
+        Box::new(Wrap(c08::C08)),
         Box::new(Wrap(c10::C10)),
         Box::new(Wrap(c13::C13)),
     ]
